@@ -113,6 +113,13 @@ def replay(p):
                 r = c(bw.BWR2(t(m), m0, g0, t(q * q), t(q0 * q0), L, d))
                 rn = c(bw.BWR_normal(t(m), m0, g0, t(q * q), t(q0 * q0), L, d))
                 err = max(abs(r * den - 1), abs(rn * den - math.sqrt(m0 * gam)), 0.0 if r.imag > 0 else 1.0)
+        elif kind == "bwr2_below":
+            m, m0, g0, s_, q02, d = (p[k] for k in ("m", "m0", "g0", "s", "q02", "d"))
+            q2 = -s_
+            r = c(bw.BWR2(t(m), m0, g0, t(q2), t(q02), L, d))
+            gam_im = g0 * (m0 / m) * _P(L, q02 * d * d) / _P(L, q2 * d * d) * (q2 / q02) ** L * math.sqrt(s_ / q02)
+            D = m0 * m0 - m * m + m0 * gam_im
+            err = abs(r * D - 1)
         elif kind == "dom":
             import sympy
 
